@@ -295,6 +295,67 @@ func c20Shapes(x *mc.Exec) {
 	c20Judge(x, idKind, fields)
 }
 
+// c20AfterEdits: what Check / BuildType / Wrap say about a struct type does not
+// depend on what a program did earlier with the Type value or the maps it
+// obtained from another wrapper of the same struct type (a structure cached per
+// reflect.Type and handed out by reference would be edited by them).
+func c20AfterEdits(x *mc.Exec) {
+	gts := c20GoTypes()
+	pick := func() c20Field {
+		return c20Field{gts[x.Choose(4, "go type")], c20APITags[x.Choose(4, "api tag")], c20JSONTags[x.Choose(2, "json tag")]}
+	}
+	fields := []c20Field{pick()}
+	if x.Bool("second field") {
+		fields = append(fields, pick())
+	}
+	t, key := c20Struct(0, fields)
+	if j.Check(reflect.New(t).Elem().Interface()) != nil {
+		return // rejected shapes have no wrapper to edit
+	}
+	edit := x.Choose(6, "earlier edit")
+	names := []string{"Type.RemoveAttr/RemoveRel of every field", "Type.AddAttr(extra)+AddRel(extrarel)", "delete from GetType().Attrs / .Rels", "delete from Attrs() / Rels()", "add to Attrs() / Rels()", "Type.Name = other"}
+	if p := Try(func() {
+		w := j.Wrap(reflect.New(t).Interface())
+		typ := w.GetType()
+		switch edit {
+		case 0:
+			for n := range typ.Attrs {
+				typ.RemoveAttr(n)
+			}
+			for n := range typ.Rels {
+				typ.RemoveRel(n)
+			}
+		case 1:
+			_ = typ.AddAttr(j.Attr{Name: "extra", Type: j.AttrTypeString})
+			_ = typ.AddRel(j.Rel{FromType: typ.Name, FromName: "extrarel", ToType: "x"})
+		case 2:
+			for n := range typ.Attrs {
+				delete(typ.Attrs, n)
+			}
+			for n := range typ.Rels {
+				delete(typ.Rels, n)
+			}
+		case 3:
+			a, r := w.Attrs(), w.Rels()
+			for n := range a {
+				delete(a, n)
+			}
+			for n := range r {
+				delete(r, n)
+			}
+		case 4:
+			w.Attrs()["phantom"] = j.Attr{Name: "phantom", Type: j.AttrTypeInt}
+			w.Rels()["phantomrel"] = j.Rel{FromType: typ.Name, FromName: "phantomrel", ToType: "x"}
+		case 5:
+			typ.Name = "other"
+		}
+	}); p != "" {
+		return // what such edits do to the edited wrapper itself is not C20's business
+	}
+	x.R.Sample("after-edits", names[edit]+" then {"+key+"}")
+	c20Judge(x, 0, fields)
+}
+
 func c20Three(x *mc.Exec) {
 	// three fields over the interesting sub-alphabet (thorough only)
 	gts := c20GoTypes()
@@ -308,9 +369,10 @@ func c20Three(x *mc.Exec) {
 func init() {
 	Register(&Prop{
 		ID: "C20",
-		Rule: "Engine A, all choices Full: ALL struct shapes built at run time with reflect.StructOf: 7 ID-field forms (string with tags, absent, no api tag, json tag != id, no json tag, int, json:\"id,omitempty\") x 0..2 further fields, each (Go type x api tag x json tag) from 19 Go types (supported, unsupported, pointers, slices, map, struct, named types with a supported underlying kind) x 10 api tags (attr, rel, 'rel,roles', 'rel,emails,inv', none, 'rel,', 'rel,a,b,c', other, 'attr,x', 'rel,roles,') x 4 json tags (a, b, empty, id): every single field (600), all pairs over the 7x5x3 interesting sub-alphabet in quick and over the full alphabet in thorough (360000 x 7), plus all triples over a 4x4x3 sub-alphabet in thorough; each by value and by pointer. Oracle: an independent tag reader predicts the type; if Check accepts: BuildType/Wrap/New/Copy/Type.New/Set+Get of id and of every declared field with a value of its Go type/MarshalResource succeed and built type = predicted type = what the wrapper reports; if Check rejects: BuildType errors and Wrap panics. Non-trivial = accepted shape",
+		Rule: "Engine A, all choices Full: ALL struct shapes built at run time with reflect.StructOf: 7 ID-field forms (string with tags, absent, no api tag, json tag != id, no json tag, int, json:\"id,omitempty\") x 0..2 further fields, each (Go type x api tag x json tag) from 19 Go types (supported, unsupported, pointers, slices, map, struct, named types with a supported underlying kind) x 10 api tags (attr, rel, 'rel,roles', 'rel,emails,inv', none, 'rel,', 'rel,a,b,c', other, 'attr,x', 'rel,roles,') x 4 json tags (a, b, empty, id): every single field (600), all pairs over the 7x5x3 interesting sub-alphabet in quick and over the full alphabet in thorough (360000 x 7), plus all triples over a 4x4x3 sub-alphabet in thorough; each by value and by pointer. plus every accepted shape of 1..2 fields over a 4x4x2 sub-alphabet judged again after 6 kinds of edits made through the Type value and the maps obtained from an earlier wrapper of the same struct type. Oracle: an independent tag reader predicts the type; if Check accepts: BuildType/Wrap/New/Copy/Type.New/Set+Get of id and of every declared field with a value of its Go type/MarshalResource succeed and built type = predicted type = what the wrapper reports; if Check rejects: BuildType errors and Wrap panics. Non-trivial = accepted shape",
 		Harnesses: []Harness{
 			{Name: "C20/shapes", Body: c20Shapes},
+			{Name: "C20/after-type-edits", Body: c20AfterEdits},
 			{Name: "C20/three-fields", Body: c20Three, OnlyTier: "thorough"},
 		},
 	})
